@@ -10,7 +10,8 @@ Inductive kin := KNone | KResp (who : nat) | KReq (who : nat) (counted : bool). 
 Record tk := { k_now : Z; k_in : kin; k_pinged : list (N * N); k_table : list nat; k_signed : list nat; k_boot_up : bool }.
 
 Inductive c14case :=
-| KTimeline (self : N) (idents : list (N * N * N)) (gap : Z) (t0 : Z) (ticks : list tk).
+(* legacy: identities that do not announce support for signed peers *)
+| KTimeline (self : N) (idents : list (N * N * N)) (legacy : list nat) (gap : Z) (t0 : Z) (ticks : list tk).
 
 Definition ident (ids : list (N * N * N)) (k : nat) : id * N * N :=
   let '(i, ip, port) := nth k ids (0, 0, 0) in (N_to_be 20 i, ip, port).
@@ -24,18 +25,20 @@ Definition table_same (ids : list (N * N * N)) (t : rtable) (dump : list nat) : 
                             existsb (fun n => bytes_eqb (nid n) i && (nip n =? ip) && (nport n =? port)) have in
   forallb entry_in dump && (length have =? length dump)%nat.
 
-Fixpoint run14_model (ids : list (N * N * N)) (m : maint) (ticks : list tk) : bool :=
+Definition rs06 (legacy : list nat) (k : nat) : bool := negb (existsb (Nat.eqb k) legacy).
+
+Fixpoint run14_model (ids : list (N * N * N)) (legacy : list nat) (m : maint) (ticks : list tk) : bool :=
   match ticks with
   | [] => true
   | t :: r =>
       let inp := match k_in t with
                  | KNone => INone
-                 | KResp k => IResp (ident ids k) true
-                 | KReq k counted => if counted then IReq (ident ids k) true false else INone
+                 | KResp k => IResp (ident ids k) (rs06 legacy k)
+                 | KReq k counted => if counted then IReq (ident ids k) (rs06 legacy k) false else INone
                  end in
       let '(m', o) := mt_tick m (k_now t) inp in
       table_same ids (mt_rt m') (k_table t) && table_same ids (mt_srt m') (k_signed t)
-      && addrs_same (o_pings o) (k_pinged t) && run14_model ids m' r
+      && addrs_same (o_pings o) (k_pinged t) && run14_model ids legacy m' r
   end.
 
 (* ---- the property on the observations ---- *)
@@ -47,28 +50,44 @@ Fixpoint set_last (k : nat) (a : Z) (l : list (nat * Z)) : list (nat * Z) :=
 
 Definition in_dump (k : nat) (dump : list nat) : bool := existsb (Nat.eqb k) dump.
 
-Fixpoint run14_pb (gap : Z) (last : list (nat * Z)) (empty_run : nat) (ticks : list tk) : bool :=
+(* 'capacity permitting': an identity may be missing from a dump when the bucket of its distance is full *)
+Definition bucket_full (self : id) (ids : list (N * N * N)) (k : nat) (dump : list nat) : bool :=
+  let d := distance self (fst (fst (ident ids k))) in
+  Nat.leb 20 (length (filter (fun j => N.eqb (distance self (fst (fst (ident ids j)))) d) dump)).
+Definition held (self : id) (ids : list (N * N * N)) (k : nat) (dump : list nat) : bool :=
+  in_dump k dump || bucket_full self ids k dump.
+
+Fixpoint run14_pb (self : id) (ids : list (N * N * N)) (legacy : list nat) (gap : Z) (last lastS : list (nat * Z)) (empty_run : nat) (ticks : list tk) : bool :=
   match ticks with
   | [] => true
   | t :: r =>
-      let last' := match k_in t with KResp k => set_last k (k_now t) last | _ => last end in
+      (* an answer is admitted, capacity permitting; from then on the peer counts as 'in the table, answered at' *)
+      let admitted := match k_in t with
+                      | KResp k => held self ids k (k_table t) && (if rs06 legacy k then held self ids k (k_signed t) else true)
+                      | _ => true
+                      end in
+      let last' := match k_in t with KResp k => if in_dump k (k_table t) then set_last k (k_now t) last else last | _ => last end in
+      let lastS' := match k_in t with KResp k => if in_dump k (k_signed t) then set_last k (k_now t) lastS else lastS | _ => lastS end in
       let now := k_now t in
-      (* answered within the last 15 minutes: still in the table *)
-      forallb (fun e : nat * Z => if (now - snd e <=? 900000)%Z then in_dump (fst e) (k_table t) else true) last'
+      admitted
+      (* in the table and answered within the last 15 minutes: still in the table *)
+      && forallb (fun e : nat * Z => if (now - snd e <=? 900000)%Z then in_dump (fst e) (k_table t) else true) last'
+      (* the same for the signed-peers table *)
+      && forallb (fun e : nat * Z => if (now - snd e <=? 900000)%Z then in_dump (fst e) (k_signed t) else true) lastS'
       (* silent for more than 15 + 5 minutes (+ the longest pause between iterations): gone *)
       && forallb (fun e : nat * Z => if (900000 + 300000 + gap <? now - snd e)%Z then negb (in_dump (fst e) (k_table t)) else true) last'
       (* only peers that answered are ever in the table *)
       && forallb (fun k => existsb (fun e : nat * Z => Nat.eqb k (fst e)) last') (k_table t)
       (* never stays empty while the bootstrap node answers *)
       && (let run' := if k_boot_up t && match k_table t with [] => true | _ => false end then S empty_run else O in
-          (run' <=? 8)%nat && run14_pb gap last' run' r)
+          (run' <=? 8)%nat && run14_pb self ids legacy gap last' lastS' run' r)
   end.
 
 Definition check14 (c : c14case) : list N :=
   match c with
-  | KTimeline self ids gap t0 ticks =>
-      (if run14_model ids (mt_new (N_to_be 20 self) t0) ticks then [] else [1]) ++
-      (if run14_pb gap [] 0 ticks then [] else [2])
+  | KTimeline self ids legacy gap t0 ticks =>
+      (if run14_model ids legacy (mt_new (N_to_be 20 self) t0) ticks then [] else [1]) ++
+      (if run14_pb (N_to_be 20 self) ids legacy gap [] [] 0 ticks then [] else [2])
   end.
 
 Fixpoint run14 (k : N) (cs : list c14case) : list (N * N) :=
